@@ -83,6 +83,18 @@ pub proof fn lemma_ref_sign(sign: Sign, d: int)
     if sign == Sign::Minus { assert(-1 * d == -d); }
 }
 
+// ------------------------------------------------------------------ Display dispatch (C20: exponent thresholds)
+/// result of one of the three formatting routines (0: exponential "E" form, 1: dotless "e" form, 2: full scale) on the
+/// decimal i * 10^-s with the formatter state f: NOT specified (the routines work on String / fmt::Formatter)
+pub uninterp spec fn fmt_route(kind: int, i: int, s: int, f: core::fmt::Formatter<'_>) -> core::fmt::Result;
+/// which routine Display picks: the exponential form when more than `lead` zeros separate the point from the first digit,
+/// the dotless form when more than `trail` zeros would have to be appended, never when a precision is requested
+pub open spec fn display_route(nd: int, s: int, prec: Option<usize>, lead: int, trail: int) -> int {
+    let lz = if s >= nd { s - nd } else { 0 };
+    let tz = if prec.is_some() { 0 } else if s <= 0 && s > -0x8000_0000_0000_0000 { -s } else { 0 };
+    if prec.is_none() && lead < lz { 0 } else if trail < tz { 1 } else { 2 }
+}
+
 // ------------------------------------------------------------------ R9: build-time configuration as uninterpreted symbols
 pub uninterp spec fn cfg_default_precision() -> u64;
 pub uninterp spec fn cfg_default_rounding_mode() -> RoundingMode;
@@ -502,6 +514,54 @@ pub proof fn lemma_noint_layout(out: Seq<u8>, d1: Seq<u8>, ts: int, ds: int)
         }
         assert(sp.subrange(0, 1) =~= d1);
         lemma_dba_append_zeros(d1, sp, ts);
+    }
+}
+/// a big-endian ASCII digit string split at its k-th digit: n == tail + 10^(m-1) * r + 10^m * q  with q the first k digits,
+/// r the next one and tail the rest (m = len - k >= 1); the facts the rounding routines need about the pieces
+pub proof fn lemma_ascii_round_split(d0: Seq<u8>, k: int)
+    requires ascii_digits(d0), 1 <= k < d0.len()
+    ensures ({
+        let ud = unascii(d0); let len = d0.len() as int; let m = len - k;
+        let q = dbe(ud.subrange(0, k)); let pfx = dbe(ud.subrange(0, k - 1)); let tail = dbe(ud.subrange(k + 1, len));
+        &&& dba(d0) == tail + pow10(m - 1) * (ud[k] as int) + pow10(m) * q
+        &&& q == 10 * pfx + ud[k - 1] && q % 10 == ud[k - 1] as int && q >= 0
+        &&& 0 <= tail < pow10(m - 1)
+        &&& 0 <= pfx < pow10(k - 1)
+        &&& ud[k] <= 9 && ud[k - 1] <= 9 && ud[k] == d0[k] - 48 && ud[k - 1] == d0[k - 1] - 48
+        &&& (tail == 0) == (forall|i: int| k + 1 <= i < len ==> d0[i] == 48u8)
+    })
+{
+    let ud = unascii(d0); let len = d0.len() as int; let m = len - k;
+    let q = dbe(ud.subrange(0, k)); let pfx = dbe(ud.subrange(0, k - 1)); let tail = dbe(ud.subrange(k + 1, len));
+    let n = dba(d0);
+    lemma_unascii(d0);
+    lemma_dbe_split(ud, k);
+    let lo = ud.subrange(k, len);
+    lemma_dbe_split(lo, 1);
+    assert(lo.subrange(1, m) =~= ud.subrange(k + 1, len));
+    let one = lo.subrange(0, 1);
+    assert(one.drop_last() =~= Seq::<u8>::empty());
+    assert(dbe(one) == 10 * dbe(one.drop_last()) + one.last() as int);
+    assert(dbe(one) == ud[k] as int);
+    let tl = ud.subrange(k + 1, len);
+    assert forall|i: int| 0 <= i < tl.len() implies tl[i] <= 9 by { assert(tl[i] == ud[k + 1 + i]); }
+    lemma_dbe_bounds(tl);
+    lemma_dbe_all_zero(tl);
+    let top = ud.subrange(0, k);
+    assert(top.drop_last() =~= ud.subrange(0, k - 1));
+    assert(top.last() == ud[k - 1]);
+    lemma_dbe_nonneg(ud.subrange(0, k - 1));
+    assert(q % 10 == ud[k - 1] as int) by { lemma_fundamental_div_mod_converse(q, 10, pfx, ud[k - 1] as int); }
+    lemma_pow10_pos(m - 1); lemma_pow10_succ(m - 1);
+    let r = ud[k] as int;
+    assert(n == tail + pow10(m - 1) * r + pow10(m) * q) by (nonlinear_arith)
+        requires n == q * pow10(m) + dbe(lo), dbe(lo) == r * pow10(m - 1) + tail;
+    let pf = ud.subrange(0, k - 1);
+    assert forall|i: int| 0 <= i < pf.len() implies pf[i] <= 9 by { assert(pf[i] == ud[i]); }
+    lemma_dbe_bounds(pf);
+    assert((tail == 0) == (forall|i: int| k + 1 <= i < len ==> d0[i] == 48u8)) by {
+        if all_zero(tl) { assert forall|i: int| k + 1 <= i < len implies d0[i] == 48u8 by { assert(tl[i - k - 1] == 0); } }
+        if forall|i: int| k + 1 <= i < len ==> d0[i] == 48u8 { assert forall|i: int| 0 <= i < tl.len() implies tl[i] == 0 by { assert(d0[k + 1 + i] == 48u8); } }
     }
 }
 pub proof fn lemma_dba_append_zeros(s: Seq<u8>, t: Seq<u8>, z: int)
